@@ -12,6 +12,43 @@ RULE = ("ops half: the C01 exhaustive geometry run through a DEBUG build of the 
         "distinct = geometry classes + distinct accessor call-site shapes")
 
 
+def miri_phase(ctx):
+    """Thorough tier: the real ops functions under Miri (stacked borrows, bounds of get_unchecked, uninitialised reads)
+    on every in-bounds geometry point of buffer lengths 1..3 (sampled 1/12), outputs compared with the extracted model."""
+    import gen_ops_cases, subprocess
+    path = os.path.join(ctx.work, "miri_cases.txt")
+    gen_ops_cases.gen(path, ctx.seed + 77, [1, 2, 3], [1], 1, stride=1)
+    lines = [l for l in open(path).read().splitlines() if l][::12]
+    with open(path, "w") as f:
+        f.write("\n".join(lines) + "\n")
+    env = dict(os.environ, CARGO_NET_OFFLINE="true", CARGO_TARGET_DIR=os.path.join(vlib.CACHE, "target-miri"),
+               MIRIFLAGS="-Zmiri-disable-isolation")
+    try:
+        p = subprocess.run(["cargo", "+nightly", "miri", "run", "--offline", "-p", "ops_runner", "--", path],
+                           cwd=os.path.join(vlib.VERIF, "harness"), env=env, stdout=subprocess.PIPE, stderr=subprocess.PIPE, timeout=2400)
+    except (subprocess.TimeoutExpired, OSError) as ex:
+        return {"ran": False, "why": str(ex)[:200]}
+    out = p.stdout.decode(errors="replace").splitlines()
+    err = p.stderr.decode(errors="replace")
+    if "Undefined Behavior" in err or p.returncode != 0:
+        if "Undefined Behavior" in err:
+            k = len(out)
+            vlib.violation(ctx, {"what": "Miri reports undefined behaviour in the bit operations on an in-bounds call",
+                                 "failing_input": ops_common.describe(lines[k]) if k < len(lines) else None,
+                                 "implementation": err[err.index("Undefined Behavior"):][:1500]})
+            return {"ran": True, "ub": True, "cases": len(lines)}
+        return {"ran": False, "why": "miri run failed: " + err[-300:]}
+    model_exe, _, e = ops_common.build(ctx)
+    model = vlib.run_sharded(lambda q: [model_exe, q], lines, workdir=ctx.work, tag="mirimodel")
+    bad = [(l, a, b) for l, a, b in zip(lines, out, model) if a != b]
+    if bad or len(out) != len(lines):
+        l, a, b = bad[0] if bad else (lines[len(out)] if len(out) < len(lines) else lines[0], "<missing>", "")
+        vlib.violation(ctx, {"what": "ops under Miri disagree with the model", "failing_input": ops_common.describe(l),
+                             "implementation": a, "model_and_spec": b})
+    os.remove(path)
+    return {"ran": True, "ub": False, "cases": len(lines), "disagreements": len(bad)}
+
+
 def run(ctx):
     info = vlib.coq_gate(ctx)
     res, err = ops_common.correspondence(ctx, ctx.tier, canary=True)
@@ -25,6 +62,9 @@ def run(ctx):
         vlib.violation(ctx, {"what": "in-bounds call of the bit operations panicked, touched a canary or returned a different result",
                              "failing_input": ops_common.describe(l), "implementation": a, "model_and_spec": b,
                              "disagreements": len(diffs)})
+    miri = {"ran": False, "why": "quick tier"}
+    if ctx.tier == "thorough":
+        miri = miri_phase(ctx)
     gen = {"evaluations": 0, "distinct": 0, "samples": []}
     try:
         from checks import c03_gen
@@ -37,7 +77,7 @@ def run(ctx):
         "evaluations": stats["evaluations"] + gen["evaluations"],
         "distinct_nontrivial": stats["distinct_nontrivial"] + gen["distinct"], "rule": RULE,
         "samples": stats["samples"][:2] + gen["samples"][:3], "input_distribution": stats["histogram"],
-        "exhaustive": True, "disagreements": len(diffs), "gen_half": gen})
+        "exhaustive": True, "disagreements": len(diffs), "gen_half": gen, "miri": miri})
 
 
 def replay(ctx, path):
